@@ -26,7 +26,7 @@ Rec == ndJsonDeserialize(IOEnv.TRACE)
 TEv == 1..6
 TFn == {<<102>>, <<103>>, <<104>>, <<99>>}        \* f g h c   (the recorder's four functions)
 TCacheable == {<<102>>, <<104>>}                  \* f h
-TArg == 1..10                                    \* argument ids within one scenario (a scenario with more is rejected: Consume)
+TArg == 1..16                                    \* argument ids within one scenario (the recorder leaves out scenarios with more)
 TNoF == <<>>
 TNoA == 0
 
